@@ -118,13 +118,13 @@ def main():
             full.append(case(a, zc, r + bytes(32)))
     quick = []
     # a spread of the matrix for the quick tier
-    for i in range(0, len(full), 13):
+    for i in range(0, len(full), 23):
         quick.append(full[i])
 
     edge = []
     a, prefix, A = keypair(bytes(range(32)))
     msg = b"C29 edge vector"
-    for i, T in enumerate(tors[1:], 1):
+    for i, T in [(1, tors[1]), (2, tors[2]), (4, tors[4])]:   # orders 8, 4, 2
         # mixed-order public key A' = A + T, honest-style signature over the encoding of A'
         A2 = add(A, T)
         r = H(prefix, msg) % L
@@ -143,7 +143,7 @@ def main():
     k = H(enc(R), enc(A), msg) % L
     S = (r + k * a) % L
     edge.append(case(enc(A), msg, enc(R) + S.to_bytes(32, "little")))
-    for S2 in (S + L, S + 2 * L, L, L - 1, 0, S | (1 << 255), (S + L) % 2**256):
+    for S2 in (S + L, L, 0, S | (1 << 255)):
         if S2 < 2**256:
             edge.append(case(enc(A), msg, enc(R) + S2.to_bytes(32, "little")))
     # sign bit of R / A flipped (different point, or the same when x = 0)
